@@ -19,7 +19,14 @@ N2 = 2          # jobs reserved by the open update
 # variant 'later': update 1 has jobs 1, 2 (committed); update 2 reserved id 3 but was abandoned; update 3 (ids 4-5) is open
 # variant 'first': a fresh batch whose FIRST update (ids 1-2) is open (commit_batch_update recomputes nothing for update 1,
 #                  so what _create_jobs stores is final)
-VARIANTS = {'later': {'start': 4, 'upd': 3, 'existing': (1, 2)}, 'first': {'start': 1, 'upd': 1, 'existing': ()}}
+# variants 'later@succ' / 'later@fail' / 'later@mid': as 'later', but the existing jobs are no longer untouched when the open update's
+#                  bunch arrives and is committed: both succeeded / job 1 failed and its child job 2 was cancelled by the canceller /
+#                  job 1 is running.  commit_batch_update derives the new jobs' n_pending_parents / state / cancelled from the parents'
+#                  CURRENT states, one spelling per terminal state.
+VARIANTS = {'later': {'start': 4, 'upd': 3, 'existing': (1, 2)}, 'first': {'start': 1, 'upd': 1, 'existing': ()},
+            'later@succ': {'start': 4, 'upd': 3, 'existing': (1, 2)}, 'later@fail': {'start': 4, 'upd': 3, 'existing': (1, 2)},
+            'later@mid': {'start': 4, 'upd': 3, 'existing': (1, 2)}}
+LATER = ('later', 'later@succ', 'later@fail', 'later@mid')
 
 _W = None
 _BASE = {}
@@ -34,24 +41,38 @@ def world(variant):
         A(('new_batch', 'u1', 't1', 2, 0))
         A(('new_update', 'u1', 't1', N2, 0))
         _BASE['first'] = _W.snapshot()
-        A(('add_jobs', 'u1', 1, [J(1, abs_group=0), J(2, abs_group=0)]))
-        A(('commit_tail', 'u1', 1))
-        A(('new_update', 'u1', 't2', 1, 0))   # abandoned: its reserved job id 3 is never filled
-        A(('new_update', 'u1', 't3', N2, 0))
-        _BASE['later'] = _W.snapshot()
+        for v in LATER:
+            _W.restore(_BASE['first'])
+            A(('add_jobs', 'u1', 1, [J(1, abs_group=0), J(2, abs_group=0, parents=[1] if v == 'later@fail' else [])]))
+            A(('commit_tail', 'u1', 1))
+            if v == 'later@succ':
+                drive(_W)
+            elif v == 'later@fail':
+                A(('sched', None, 'i1'))
+                att = [a for a in _W.table('attempts') if a['job_id'] == 1][0]['attempt_id']
+                A(('complete', 1, att, 'i1', 'Failed', 10, 20))
+                A(('canceller', 'ready'))
+            elif v == 'later@mid':
+                A(('sched', None, 'i1'))
+            A(('new_update', 'u1', 't2', 1, 0))   # abandoned: its reserved job id 3 is never filled
+            A(('new_update', 'u1', 't3', N2, 0))
+            _BASE[v] = _W.snapshot()
+        st = {v: sorted((j['job_id'], j['state']) for j in _W.restore(_BASE[v]) or _W.table('jobs')) for v in LATER}
+        assert st['later@succ'] == [(1, 'Success'), (2, 'Success')] and st['later@fail'] == [(1, 'Failed'), (2, 'Cancelled')] \
+            and st['later@mid'][0] == (1, 'Running'), st
     return _W, _BASE[variant]
 
 
 def requests(tier):
     """(variant, ids, [(in_update_parents, absolute_parents), ...])"""
     out = []
-    for variant in ('later', 'first'):
+    for variant in LATER + ('first',):
         inup = [(), (1,), (2,), (3,)] + ([(1, 2)] if tier != 'quick' else [])
-        if variant == 'later':
-            absp = [(), (1,), (3,), (4,), (5,), (9,), (1, 1)] + ([(2, 4)] if tier != 'quick' else [])
+        if variant in LATER:
+            absp = [(), (1,), (2,), (3,), (4,), (5,), (9,), (1, 1)] + ([(2, 4)] if tier != 'quick' else [])
         else:
             absp = [(), (1,), (2,), (3,), (9,), (1, 1)]
-        for first in (1, 2):  # in-update id of the first spec (validator demands contiguous ids)
+        for first in (1, 2) if (variant in ('later', 'first') or tier != 'quick') else ():  # in-update id of the first spec (validator demands contiguous ids)
             ids = (first, first + 1)
             for p1 in itertools.product(inup, absp):
                 for p2 in itertools.product(inup, absp):
@@ -61,7 +82,7 @@ def requests(tier):
             for p in itertools.product(inup, absp):
                 out.append((variant, (jid,), (p,)))
         # the same single-spec bunches WITHOUT the second bunch: the update has a hole and must not be committable
-        for jid in (1, 2):
+        for jid in (1, 2) if (variant in ('later', 'first') or tier != 'quick') else ():
             for p in itertools.product(inup, absp):
                 out.append((variant + '+hole', (jid,), (p,)))
     return out
@@ -104,6 +125,7 @@ def drive(w):
     for _ in range(12):
         before = [(j['job_id'], j['state']) for j in w.table('jobs')]
         ops.apply(w, ('sched', None, 'i1'))
+        ops.apply(w, ('canceller', 'ready'))   # a job whose parent did not succeed becomes Ready + cancelled: the canceller finishes it
         for a in w.table('attempts'):
             if a['end_time'] is None:
                 ops.apply(w, ('complete', a['job_id'], a['attempt_id'], 'i1', 'Success', 10, 20))
@@ -201,14 +223,14 @@ def check(tier, seed, procs):
         'evaluations': len(rows),
         'distinct_nontrivial': len({repr(r['req']) for r in rows if r['classes'] or r.get('finished')}),
         'rule': 'every bunch of 1-2 specs for an update with 2 reserved jobs: in-update ids {1,2,3}, in-update parents from '
-                '{none,1,2,3}, absolute parents from {none,1,3,4,5,9}; non-trivial = ill-formed, or well-formed and driven to completion',
+                '{none,1,2,3}, absolute parents from {none,1,2,3,4,5,9}; non-trivial = ill-formed, or well-formed and driven to completion',
         'samples': [describe(r['req']) for r in rows[:2]] + [describe(r['req']) for r in rows if r['classes']][:2],
         'exhaustive': True,
         'ill_formed': ill,
         'well_formed_driven_to_completion': sum(1 for r in rows if r.get('finished')),
         'ill_formed_by_class': {c: sum(1 for r in rows if c in r['classes']) for c in
                                 ('self-parent', 'later-parent', 'missing-parent', 'job-id-outside-range')},
-        'bounds': 'two situations: (later) update 1 (jobs 1,2) committed, update 2 (reserved job 3) abandoned, update 3 (2 reserved jobs, ids 4-5) open; (first) fresh batch whose first update (ids 1-2) is open; duplicate naming of a parent included',
+        'bounds': 'situations: (later) update 1 (jobs 1,2) committed, update 2 (reserved job 3) abandoned, update 3 (2 reserved jobs, ids 4-5) open, with the existing jobs untouched / both succeeded / 1 failed and 2 cancelled / 1 running when the bunch arrives (quick: single-spec bunches only for the last three); (first) fresh batch whose first update (ids 1-2) is open; duplicate naming of a parent included',
         'duplicate_parent_submissions_accepted_and_finished': sum(1 for r in rows if r.get('finished') and 'duplicate-parent' in classify(r['req'][0].split('+')[0], *r['req'][1:])),
     }
     return {'coverage': cov, 'violations': viol, 'assumptions': bf.ASSUME, 'level': 'model_checking',
